@@ -19,6 +19,8 @@ import (
 	"time"
 )
 
+var reHarnessPkg = regexp.MustCompile(`(^|[^A-Za-z0-9_."])(fmt|reflect|debug|syscall|testing|unsafe)\.`)
+
 type replayResult struct {
 	Path      string
 	Confirmed bool
@@ -197,6 +199,9 @@ type valueGen struct {
 	decls []string
 	n     int
 	notes []string
+	// pins: equalities fixing the input (parameters and the bytes they view) to the replayed values
+	pinning bool
+	pins    []string
 }
 
 func (g *valueGen) intOf(term string) (*big.Int, error) {
@@ -207,6 +212,9 @@ func (g *valueGen) intOf(term string) (*big.Int, error) {
 	n, ok := modelInt(vs[0])
 	if !ok {
 		return nil, fmt.Errorf("non-integer model value %q for %s", vs[0], term)
+	}
+	if g.pinning {
+		g.pins = append(g.pins, eq(term, lit(n)))
 	}
 	return n, nil
 }
@@ -243,6 +251,9 @@ func (g *valueGen) bytesOf(obj, off, ln string) ([]byte, bool, error) {
 				return nil, false, fmt.Errorf("bad byte value %q", v)
 			}
 			out[i] = byte(x.Int64())
+			if g.pinning {
+				g.pins = append(g.pins, eq(terms[i], lit(x)))
+			}
 		}
 	}
 	return out, false, nil
@@ -302,6 +313,9 @@ func (g *valueGen) gen(sv SVal, T types.Type, pkgPath string, imports map[string
 			return "", err
 		}
 		g.decls = append(g.decls, fmt.Sprintf("var %s %s = %s", name, ts, vs[0]))
+		if g.pinning {
+			g.pins = append(g.pins, eq(sv.S, vs[0]))
+		}
 		return name, nil
 	case KSlice:
 		sl, ok := T.Underlying().(*types.Slice)
@@ -526,6 +540,7 @@ func (e *Engine) replay(o *Oblig, all []*FuncResult, dir string, cfg solveCfg) r
 	g := &valueGen{s: s, mem0: "$M0_uint8"}
 	imports := map[string]string{}
 	var argNames []string
+	g.pinning = true
 	for i, p := range fr.ParamVals {
 		n, err := g.gen(p, fn.Params[i].Type(), fr.PkgPath, imports)
 		if err != nil {
@@ -533,6 +548,7 @@ func (e *Engine) replay(o *Oblig, all []*FuncResult, dir string, cfg solveCfg) r
 		}
 		argNames = append(argNames, n)
 	}
+	g.pinning = false
 	// predicted results (scalars only)
 	type pred struct {
 		kind string
@@ -608,7 +624,12 @@ func (e *Engine) replay(o *Oblig, all []*FuncResult, dir string, cfg solveCfg) r
 	}
 	fmt.Fprintf(&src, "\tfmt.Println(\"VERIF-REPLAY-DONE\")\n}\n")
 	testFile := filepath.Join(dir, sanitize(o.Name)+"_replay_test.go")
-	os.WriteFile(testFile, []byte(src.String()), 0o644)
+	// the harness's own imports are aliased so they cannot clash with package-level names
+	text := src.String()
+	text = strings.Replace(text, "\t\"fmt\"\n\t\"reflect\"\n\t\"runtime/debug\"\n\t\"syscall\"\n\t\"testing\"\n\t\"unsafe\"\n",
+		"\tvrfmt \"fmt\"\n\tvrreflect \"reflect\"\n\tvrdebug \"runtime/debug\"\n\tvrsyscall \"syscall\"\n\tvrtesting \"testing\"\n\tvrunsafe \"unsafe\"\n", 1)
+	text = reHarnessPkg.ReplaceAllString(text, "${1}vr$2.")
+	os.WriteFile(testFile, []byte(text), 0o644)
 	pkgDir := filepath.Dir(e.prog.Fset.Position(fn.Pos()).Filename)
 	ov := map[string]any{"Replace": map[string]string{filepath.Join(pkgDir, "zz_verif_replay_test.go"): testFile}}
 	ovb, _ := json.Marshal(ov)
@@ -668,9 +689,77 @@ func (e *Engine) replay(o *Oblig, all []*FuncResult, dir string, cfg solveCfg) r
 			}
 			fmt.Fprintf(&log, "result %d: model predicts %s %s; real code: %s\n", i, p.kind, p.val, line)
 		}
+		if o.Kind == "overflow" {
+			if !match {
+				res.Confirmed = true
+				return finish("CONFIRMED: on the model input the real function's result differs from the result computed with mathematical integers, i.e. the signed arithmetic wrapped around")
+			}
+			return finish("the real outputs equal the mathematical ones on the model input (the wrapped value did not reach an output)")
+		}
 		if match {
 			res.Confirmed = true
 			return finish("CONFIRMED: on the model input the real function returns exactly the outputs the model predicts, and those outputs falsify the clause")
+		}
+		// the model is not a faithful execution (e.g. a wrapped overflow): let the solver judge the
+		// clause on the REAL outputs, with the input pinned to the replayed values
+		if o.GoalFree != "" && len(fr.FreeResults) == len(preds) {
+			var pinsOut []string
+			ok := true
+			for i, r := range fr.FreeResults {
+				var line string
+				for _, l := range strings.Split(outs, "\n") {
+					if strings.HasPrefix(l, fmt.Sprintf("VERIF-REPLAY-RESULT %d ", i)) {
+						line = strings.TrimPrefix(l, fmt.Sprintf("VERIF-REPLAY-RESULT %d ", i))
+					}
+				}
+				f := strings.Fields(line)
+				switch {
+				case len(f) >= 2 && f[0] == "int" && r.K == KInt:
+					n, good := new(big.Int).SetString(f[1], 10)
+					if !good {
+						ok = false
+						break
+					}
+					pinsOut = append(pinsOut, eq(r.S, lit(n)))
+				case len(f) >= 2 && f[0] == "bool" && r.K == KBool:
+					pinsOut = append(pinsOut, eq(r.S, f[1]))
+				case len(f) >= 1 && f[0] == "nil" && r.K == KRef:
+					pinsOut = append(pinsOut, eq(r.S, "0"))
+				case len(f) >= 1 && f[0] == "nonnil" && r.K == KRef:
+					pinsOut = append(pinsOut, lt("0", r.S))
+				default:
+					ok = false
+				}
+			}
+			if ok {
+				s.send("(push 1)")
+				for _, p := range g.pins {
+					s.send("(assert " + p + ")")
+				}
+				for _, p := range pinsOut {
+					s.send("(assert " + p + ")")
+				}
+				s.send("(assert (not " + o.GoalFree + "))")
+				s.send("(check-sat)")
+				a1, _ := s.readSexp()
+				s.send("(pop 1)")
+				s.send("(push 1)")
+				for _, p := range g.pins {
+					s.send("(assert " + p + ")")
+				}
+				for _, p := range pinsOut {
+					s.send("(assert " + p + ")")
+				}
+				s.send("(assert " + o.GoalFree + ")")
+				s.send("(check-sat)")
+				a2, _ := s.readSexp()
+				s.send("(pop 1)")
+				fmt.Fprintf(&log, "solver check of the clause on the real outputs: not-clause is %s, clause is %s\n", a1, a2)
+				if a1 == "sat" && a2 == "unsat" {
+					res.Confirmed = true
+					return finish("CONFIRMED: the real function's outputs on the replayed input falsify the clause (decided by the solver on the concrete values; the symbolic model itself is not a faithful execution here, e.g. because an overflow obligation fails)")
+				}
+			}
 		}
 		return finish("real outputs differ from the model's prediction (encoding imprecision?)")
 	}
